@@ -340,6 +340,15 @@ def lines_family(name, seed=1):
     common.build_cli()
     s = harness('replay_lines', ['--in', m['out'], '--out', out, '--bases', '2' if name.endswith('_q') else '1', '--cli', common.CGT_TOOL, '--cli-every', '23', '--pad-every', '2' if fam.get('files') else '5'])
     r = {'name': name, 'tlc': m, 'summary': s, 'findings': read_ndjson(out), 'obs': None}
+    if fam.get('perm') or name in ('lines_fills_q', 'lines_prepass_q'):
+        # every behaviour of these families is an ORDER of the same lines: the specification gives each order its outcome
+        # (and TLC has checked that all of them refine the same cell outcome), so if the code deviates for some orders and
+        # not for others, the order of the lines changes what it reports beyond what the specification allows: C06
+        bad = {f['case'] for f in r['findings'] if f['kind'] != 'cli_report_differs'}
+        if 0 < len(bad) < s['records']:
+            f0 = next(f for f in r['findings'] if f['case'] in bad)
+            r['findings'].append({'prop': 'C06', 'kind': 'line_order_changes_outcome', 'case': f0['case'], 'input': f0.get('input', ''), 'data': {},
+                                  'detail': f'{len(bad)} of the {s["records"]} orders of the same lines deviate from the line-level model, the others do not; e.g. {f0["detail"][:300]}'})
     log(f'[replay] MC_Lines/{name}: {s["records"]} behaviours, {s["counters"].get("executions", 0)} executions, '
         f'{s["findings"]} deviations')
     _lines_binding_selftest(m['out'], wd)
